@@ -138,10 +138,12 @@ Proof.
   destruct k; try exact I; destruct (is_strict lvl && too_long mx s); exact I.
 Qed.
 
-(* C15 at the segment level, every shipped version *)
-Theorem shipped_parse_segment_safe v t lvl e text : tables_of v = Some t ->
-  sp (fun s => forall e' trailing, exists x, enc_segment t e' s trailing = Ok x)
-     (parse_segment t lvl e (leaf_enc v lvl e) text None).
+(* the premises of Proofs/NoCrash.v, for every shipped version *)
+Lemma shipped_premises v t : tables_of v = Some t ->
+  base t (Some (unbs "ST")) = true /\
+  (forall n r, slookup n (t_fields t) = Some r -> ref_ok t r) /\
+  (forall n r, slookup n (t_components t) = Some r -> ref_ok t r) /\
+  (forall n r, length n <= 3 -> slookup n (t_segments t) = Some r -> seg_good t n r).
 Proof.
   intros Ht.
   pose proof (Oblig.WfAll.tables_of_wf v t Ht) as Hrep.
@@ -150,6 +152,33 @@ Proof.
   unfold seg_tables_ok in F. cbv beta in F. repeat (apply andb_prop in F; destruct F as [F _]).
   apply nodupb_streqb_NoDup in F.
   pose proof (lookup_forallb (fun _ x => comps_tables_ok x) all_tables v t all_comps_tables_ok Ht) as Hc.
-  apply (parse_segment_safe t Hst (fields_ref_ok t Hrep F) (comps_ref_ok t Hrep F Hc) (segs_good t Hrep F)
-                            lvl e (leaf_enc v lvl e) (leaf_enc_safe v lvl e)).
+  split; [exact Hst|]. split; [exact (fields_ref_ok t Hrep F)|].
+  split; [exact (comps_ref_ok t Hrep F Hc)|exact (segs_good t Hrep F)].
+Qed.
+
+(* C15 at the segment level, every shipped version *)
+Theorem shipped_parse_segment_safe v t lvl e text : tables_of v = Some t ->
+  sp (fun s => forall e' trailing, exists x, enc_segment t e' s trailing = Ok x)
+     (parse_segment t lvl e (leaf_enc v lvl e) text None).
+Proof.
+  intros Ht. destruct (shipped_premises v t Ht) as [H1 [H2 [H3 H4]]].
+  apply (parse_segment_safe t H1 H2 H3 H4 lvl e (leaf_enc v lvl e) (leaf_enc_safe v lvl e)).
+Qed.
+
+(* parse_field / parse_component called directly (standard references) *)
+Theorem shipped_parse_field_safe v t lvl e text name fv : tables_of v = Some t ->
+  sp (fun f => forall e', exists x, enc_field t e' f = Ok x)
+     (parse_field t lvl e (leaf_enc v lvl e) text name None fv).
+Proof.
+  intros Ht. destruct (shipped_premises v t Ht) as [H1 [H2 [H3 _]]].
+  eapply sp_weaken; [|apply (parse_field_safe t H1 H2 H3 lvl e (leaf_enc v lvl e) (leaf_enc_safe v lvl e) text name None fv I)].
+  intros f [_ H]. exact H.
+Qed.
+
+Theorem shipped_parse_component_safe v t lvl e text name datatype : tables_of v = Some t ->
+  datatype = None \/ base t datatype = true ->
+  sp TT (parse_component t lvl e (leaf_enc v lvl e) text name datatype None).
+Proof.
+  intros Ht Hd. destruct (shipped_premises v t Ht) as [H1 [H2 [H3 _]]].
+  apply (parse_component_safe t H1 H2 H3 lvl e (leaf_enc v lvl e) (leaf_enc_safe v lvl e) text name datatype None Hd I).
 Qed.
